@@ -18,6 +18,10 @@
 
 #include "cppcheck.h"
 
+#ifdef DANMAR_CPPCHECK_VERIF
+#include "verifhook.hpp"
+#endif
+
 #include "addoninfo.h"
 #include "analyzerinfo.h"
 #include "check.h"
@@ -239,6 +243,9 @@ private:
         } else {
             mErrorLogger.reportErr(msg);
         }
+#ifdef DANMAR_CPPCHECK_VERIF
+        verifhook::crashPoint("finding");
+#endif
 
         // check if plistOutput should be populated and the current output file is open and the error is not suppressed
         if (!mSettings.plistOutput.empty() && mPlistFile.is_open() && !mSuppressions.nomsg.isSuppressed(errorMessage)) {
